@@ -31,5 +31,26 @@ pub open spec fn captured_raw_line(state: &State) -> Option<Seq<char>> {
 //@| ensures captured_raw_line(state) matches Some(raw) ==> r && final(style_sections)@ == raw_style_sections_spec::<'a>(raw, config),  // @C08:a.line.with.captured.input.colours.is.shown.in.exactly.those.and.no.rule.for.computed.styles.touches.it
 //@|         captured_raw_line(state) is None ==> !r && final(style_sections)@ == old(style_sections)@,  // @C08:other.lines.keep.their.computed.styles.at.this.point
 
+// The body of the inner loop of update_diff_style_sections (sections of one line, visited from the LAST to the first): the two
+// documented rules - a section that is not emphasised gets the non-emph style when the line has a partner and such a style is
+// configured; the whitespace that ends an added line gets the whitespace-error style.
+/// the section consists of white space only (`s.trim().is_empty()`)
+pub open spec fn blank_section(s: Seq<char>) -> bool { trim_spec(s).len() == 0 }
+/// `str::trim`: uninterpreted
+pub uninterp spec fn trim_spec(s: Seq<char>) -> Seq<char>;
+pub assume_specification[ str::trim ](s: &str) -> (r: &str)
+    ensures r@ == trim_spec(s@);
+//@ region src/paint.rs Painter::update_diff_style_sections
+//@sig pub fn update_section_style(style: &mut Style, s: &str, mut is_whitespace_error: bool, whitespace_error_style: Option<Style>, non_emph_style: Option<Style>, line_has_emph_and_non_emph_sections: bool, should_update_non_emph_styles: bool) -> (r: bool)
+//@fromafter <<<for (style, s) in style_sections.iter_mut().rev() {>>>
+//@to <<<*style = whitespace_error_style.unwrap(); } }>>>
+//@tail is_whitespace_error
+//@| requires is_whitespace_error ==> whitespace_error_style is Some,  // @C03:the.whitespace.error.style.is.there.while.the.end.of.the.line.is.still.blank
+//@|          should_update_non_emph_styles ==> non_emph_style is Some,  // @C03:the.non.emph.style.is.there.when.it.is.to.be.used
+//@| ensures r == (is_whitespace_error && blank_section(s@)),  // @C06:only.the.blank.sections.that.END.the.line.count.as.a.whitespace.error
+//@|         *final(style) == (if r && (old(style).is_emph || !line_has_emph_and_non_emph_sections) { whitespace_error_style->0 }
+//@|                           else if should_update_non_emph_styles && !old(style).is_emph { if r { whitespace_error_style->0 } else { non_emph_style->0 } }
+//@|                           else { *old(style) }),  // @C06:a.section.keeps.its.style.unless.it.is.trailing.whitespace.of.the.line.or.an.unemphasised.section.of.a.paired.line
+
 } // verus!
 fn main() {}
